@@ -33,7 +33,7 @@ def run(ctx):
     demo2 = None
     # "fixed": hand-picked regression programs, among them the reproduction of the known finding
     # selfdestruct-immediate-delete (so that the KNOWN-FINDING line does not depend on seeds or bounds)
-    for prof in ("fixed", "depth3", "calls2", "create", "destruct"):
+    for prof in ("fixed", "depth3", "calls2", "create", "createv", "destruct"):
         behs, r = ec.export_programs(ctx, prof, timeout=900 if q else 3000)
         exhaustive = exhaustive and r.ok
         if prof == "depth3":
@@ -90,7 +90,7 @@ def run(ctx):
                        "non-trivial when the entry contract made a call/creation and then read the return data buffer "
                        "(RETURNDATASIZE or RETURNDATACOPY)")
     ctx.cov["exhaustive"] = bool(exhaustive)
-    ctx.cov["exhaustive_note"] = ("program profiles fixed/depth3/calls2/create/destruct (EvmFrames) and alias/create/window "
+    ctx.cov["exhaustive_note"] = ("program profiles fixed/depth3/calls2/create/createv/destruct (EvmFrames) and alias/create/window "
                                   "(EvmMemory) are enumerated completely by TLC (BFS) and all replayed; the mix profiles and the "
                                   "word vectors are sampled")
     ctx.assumptions += [
